@@ -182,8 +182,23 @@ def check(ctx):
         g = GuardAnalysis(sf, P)
         tb = g.tb
         rows = {}
+        # the awaited-address variable by role: what is handed to TelegramTxResponse::new as its second argument
+        er_local = None
+        for b, c in call_sites(sf, lambda c: callee_is(c, "fdl::telegram::TelegramTxResponse::new")):
+            pj = c["args"][1].get("mv") or c["args"][1].get("cp") if len(c["args"]) > 1 else None
+            if pj is not None and not pj.get("p"):
+                er_local = pj["l"]
+                for _ in range(4):  # through compiler temporaries (`_t = move expects_reply`)
+                    ds = tb.defs.get(er_local, ())
+                    if len(ds) == 1 and ds[0][0] == "stmt":
+                        rv_ = sf.blocks[ds[0][1]].stmts[ds[0][2]]["rv"]
+                        src = (rv_.get("use") or {}).get("mv") or (rv_.get("use") or {}).get("cp")
+                        if src is not None and not src.get("p"):
+                            er_local = src["l"]
+                            continue
+                    break
         for b, i, s in stmts(sf):
-            if "a" in s and sf.locals[s["a"]["l"]].get("name") == "expects_reply":
+            if "a" in s and s["a"]["l"] == er_local and not s["a"].get("p"):
                 v = tb.rvalue(s["rv"])
                 for fs in g.at(b, i):
                     kind = [vs for k, vs in fs.items() if k[0] == "discr" and (path_str(k[1]) or "").endswith("header.fc")]
